@@ -377,6 +377,15 @@ func (g *Gen) recvCase(ok [rcN]bool, module bool, usedPool *[][2]uint64) {
 	if !ok[rcBurnUnpaused] {
 		g.pauseTx("BurningAndMinting", false)
 	}
+	if !strings.HasPrefix(out, "out=ok") && g.chance(0.35) {
+		// the obstacle is gone: a well-formed message for the SAME (source domain, nonce) must now go through exactly as
+		// if the failed attempt had never happened (nothing of a failed receive may survive, in the store or outside it)
+		retry := g.inboundBurn(src, nonce, big.NewInt(int64(1+g.pick(100))), g.pick(len(g.acctRaw)))
+		out2 := g.tx("ReceiveMessage", g.opReceive(g.anyAcct(), retry, attOpts{}))
+		if strings.HasPrefix(out2, "out=ok") {
+			*usedPool = append(*usedPool, [2]uint64{uint64(src), nonce})
+		}
+	}
 }
 
 func scnRecvMatrix(g *Gen, budget int, arg string) {
@@ -639,6 +648,12 @@ func scnNonces(g *Gen, budget int, arg string) {
 		sp.nextNonce = starts[g.pick(len(starts))]
 		if g.chance(0.1) {
 			sp.nextNonce = "-"
+		}
+		if g.chance(0.25) {
+			sp.maxBody = "-" // the other optional genesis fields may be absent independently of the counter
+		}
+		if g.chance(0.15) {
+			sp.threshold = "-"
 		}
 		g.emit(Op{Kind: "genesis-init", KV: sp.kv()})
 		g.dump()
@@ -1070,8 +1085,11 @@ func (g *Gen) randomGenesis() genSpec {
 	for i := 0; i < n; i++ {
 		d := g.pick(3)
 		a := messengerAddr(uint32(d))
-		if g.chance(0.15) {
-			a = a[:g.pick(33)]
+		if g.chance(0.3) {
+			// Validate does not constrain a messenger's address: a genesis can hold lengths no transaction can create
+			a = a[:[]int{0, 1, 20, 31, 32, g.pick(33)}[g.pick(6)]]
+		} else if g.chance(0.1) {
+			a = append(a, 7)
 		}
 		s.messengers = append(s.messengers, fmt.Sprintf("%d:%x", d, a))
 	}
@@ -1106,6 +1124,42 @@ func (g *Gen) randomGenesis() genSpec {
 	return s
 }
 
+// probeGenesis reads back, through the queries and the user flows, every entry a genesis put into the store (entries a
+// genesis can hold but no transaction can create -- short messenger addresses, odd spellings -- are only reachable here).
+func (g *Gen) probeGenesis(sp genSpec) {
+	first := func(x string) string { return strings.SplitN(x, ":", 2)[0] }
+	for _, m := range sp.messengers {
+		g.emit(Op{Kind: "query", Sub: "RemoteTokenMessenger", KV: newKV().set("domain", first(m))})
+		if g.chance(0.5) {
+			ty, kv := g.opDeposit(g.anyAcct(), "1", g.chance(0.3))
+			g.tx(ty, kv.set("dest", first(m)))
+		}
+	}
+	for _, p := range sp.pairs {
+		f := strings.Split(p, ":")
+		if len(f) >= 2 {
+			g.emit(Op{Kind: "query", Sub: "TokenPair", KV: newKV().set("domain", f[0]).set("token", hs("0x"+f[1]))})
+		}
+	}
+	for _, u := range sp.used {
+		f := strings.Split(u, ":")
+		if len(f) == 2 {
+			g.emit(Op{Kind: "query", Sub: "UsedNonce", KV: newKV().set("domain", f[0]).set("nonce", f[1])})
+		}
+	}
+	for _, a := range sp.attesters {
+		g.emit(Op{Kind: "query", Sub: "Attester", KV: newKV().set("attester", a)})
+	}
+	for _, l := range sp.limits {
+		g.emit(Op{Kind: "query", Sub: "PerMessageBurnLimit", KV: newKV().set("denom", first(l))})
+	}
+	for _, q := range []string{"Attesters", "PerMessageBurnLimits", "TokenPairs", "UsedNonces", "RemoteTokenMessengers", "Roles",
+		"MaxMessageBodySize", "NextAvailableNonce", "SignatureThreshold", "BurningAndMintingPaused", "SendingAndReceivingMessagesPaused"} {
+		g.emit(Op{Kind: "query", Sub: q, KV: newKV()})
+	}
+	g.dump()
+}
+
 // exportAndReimport: snapshot, export, import into an empty chain, snapshot, diff.
 func (g *Gen) exportAndReimport() {
 	g.emit(Op{Kind: "snap", KV: newKV().set("id", "a")})
@@ -1137,6 +1191,7 @@ func scnGenesis(g *Gen, budget int, arg string) {
 			o := g.emit(Op{Kind: "genesis-init", KV: sp.kv()})
 			g.dump()
 			if strings.HasPrefix(o, "out=ok") {
+				g.probeGenesis(sp)
 				g.emit(Op{Kind: "genesis-export", KV: newKV()})
 				if strings.HasPrefix(v, "out=ok") {
 					// export(init(g)) vs g is judged by the monitor on the two lines above;
